@@ -77,7 +77,7 @@ impl<Fut: Future> FuturesOrdered<Fut> {
     pub fn with_capacity(capacity: usize) -> Self {
         Self {
             in_progress_queue: FuturesUnordered::with_capacity(capacity),
-            queued_outputs: BinaryHeap::with_capacity(capacity - 1),
+            queued_outputs: BinaryHeap::with_capacity(capacity.saturating_sub(1)),
             next_incoming_index: Wrapping(0),
             next_outgoing_index: Wrapping(0),
         }
